@@ -90,7 +90,7 @@ func verifySizes(st *Store, root cid.Cid, ext map[cid.Cid]uint64) (blocks int, e
 	return
 }
 
-const c11Rule = "case = file (content incl. periodic contents that repeat chunks, chunker, width) or directory of externally sized entries (plain / sharded / quick builder, fanout) or a whole generated tree built bottom-up; " +
+const c11Rule = "case = file (content incl. periodic contents that repeat chunks, chunker, width) or directory of externally sized entries (plain / sharded / quick builder, fanout) or a whole generated tree built bottom-up or an on-disk tree (with files of more than 256 KiB) imported recursively; " +
 	"oracle = independent recomputation from the stored blocks: returned size = encoded length of the root + sizes of everything it links to (tree sum); every written link's Tsize = cumulative size of its target (or the caller-supplied size for external targets); every interior file node's FileSize / BlockSizes = content bytes below it / below each child; " +
 	"non-trivial = DAG with >= 2 levels; distinct by (kind, shape, dedup?)"
 
@@ -99,7 +99,7 @@ func TestC11_P_Sizes(t *testing.T) {
 	maxLen := scale(4096, 65536)
 	maxN := scale(300, 3000)
 	rapid.Check(t, func(t *rapid.T) {
-		kind := rapid.SampledFrom([]string{"file", "file", "sharded", "plain", "quick", "tree", "symlink", "twice"}).Draw(t, "kind")
+		kind := rapid.SampledFrom([]string{"file", "file", "sharded", "plain", "quick", "tree", "symlink", "twice", "recursive"}).Draw(t, "kind")
 		st := NewStore()
 		var root cid.Cid
 		var size uint64
@@ -189,6 +189,28 @@ func TestC11_P_Sizes(t *testing.T) {
 			nt = st.Len() >= 3
 			fp = fmt.Sprintf("twice %s w=%d blocks=%s", ck.Class, w, bucket(st.Len()))
 			sample = map[string]any{"kind": kind, "len": len(content), "chunker": ck.Name, "w": w, "stored_blocks": st.Len()}
+		case "recursive":
+			// an on-disk tree imported by BuildUnixFSRecursive; the importer's chunker is the 256 KiB default, so files need
+			// more than 256 KiB to get interior nodes
+			fsroot := genFSRootDir(t, 2, false)
+			nbig := rapid.IntRange(0, 2).Draw(t, "bigFiles")
+			for i := 0; i < nbig; i++ {
+				sz := rapid.SampledFrom([]int{262144, 262145, 300000, 524289, 786433}).Draw(t, "bigSize")
+				fsroot.Kids[fmt.Sprintf("big-%d.bin", i)] = &fsNode{Kind: fsFile, Data: lcgBytes(sz, byte(i+1), 0)}
+			}
+			var l datamodel.Link
+			if werr := withFSTree(fsroot, func(p string) {
+				must(t, "BuildUnixFSRecursive", func() { l, size, err = builder.BuildUnixFSRecursive(p, st.LinkSystem()) })
+			}); werr != nil {
+				t.Fatalf("harness: %v", werr)
+			}
+			if err != nil {
+				t.Fatalf("C11 recursive import: %v", err)
+			}
+			root = cidOf(l)
+			nt = nbig > 0
+			fp = fmt.Sprintf("recursive n=%s big=%d", bucket(fsroot.count()), nbig)
+			sample = map[string]any{"kind": kind, "entities": fsroot.count(), "multi_chunk_files": nbig, "stored_blocks": st.Len()}
 		case "tree":
 			tr := genBuilderTree(t, 3, scale(8, 14))
 			must(t, "tree build", func() { err = tr.build(st) })
